@@ -70,8 +70,9 @@ def run(ctx):
     if not hok:
         ctx.issue("harness-build", "the harness no longer builds against the working tree: " + herr[-400:])
         return C.finish(ctx)
-    if not have or any(n == "<build>" for n, _ in failing):
-        return C.finish(ctx)
+    broken = (not have) or any(n == "<build>" for n, _ in failing)
+    if broken:
+        T = C.load_pinned_T()          # generate from the pinned tables, judge the implementation alone
     cases = build_cases(ctx, T, rounds=2 if ctx.tier == "quick" else 12)
     expect = {r: (k, e) for k, r, e in cases}
 
@@ -97,6 +98,11 @@ def run(ctx):
         return None
 
     reqs = [r for _, r, _ in cases]
+    if broken:
+        if C.oracle_search(ctx, reqs, oracle, "asm+parse"):
+            # the concrete failing input replaces the bare "translator no longer accepts" reports
+            ctx.issues = [i for i in ctx.issues if i.found_input]
+        return C.finish(ctx)
     impl, model = C.differential(ctx, reqs, "asm+parse", oracle=oracle, shrink=False)
     ops_seen = set()
     for k, r, e in cases:
